@@ -308,13 +308,10 @@ impl Search {
                 }
             }
 
-            #[cfg(weechess_verif)]
-            searcher::verif::thread_event(
-                if best_line.is_empty() { "W_End" } else { "W_EndBest" },
-                verif_search,
-            );
-
             if let Some(m) = best_line.first() {
+                #[cfg(weechess_verif)]
+                searcher::verif::thread_event("W_Best", verif_search);
+
                 println!("bestmove {}{}{}", m.origin(), m.destination(), {
                     if let Some(p) = m.promotion() {
                         let c: char = p.into();
@@ -324,6 +321,9 @@ impl Search {
                     }
                 });
             }
+
+            #[cfg(weechess_verif)]
+            searcher::verif::thread_event("W_End", verif_search);
 
             ()
         });
